@@ -197,7 +197,9 @@ type connT struct {
 	noRead bool     // async pools: the connection's reader goroutine is known to have exited
 }
 
-func (c *connT) open() bool { return !c.failed && c.fc.Connected() && !c.fc.IsClosed() }
+// open is read from the fake connection itself (a connection may be registered by the model while
+// its Connect() is still in progress on another thread of the schedule part)
+func (c *connT) open() bool { return c.fc.Connected() && !c.fc.IsClosed() }
 func (c *connT) tainted() bool {
 	return len(c.taints) > 0
 }
@@ -1013,7 +1015,10 @@ func (w *world) check() map[string]sv {
 		switch {
 		case ds > 1:
 			add(obj, pn+" I5 OnDestroyStream fired more than once for a stream", fmt.Sprintf("stream %d: listeners were told %d times that it is destroyed (end cause %q)", s.ord, ds, s.endCause))
-		case s.ended && ds == 0 && !(s.c != nil && s.c.noRead):
+		case s.ended && ds == 0 && !(s.c != nil && s.c.noRead) && !w.sched:
+			// (not in the schedule part: there the harness listener, registered after NewStream returned
+			// like the proxy's, can miss a reset that happened in between; the pool-side effects of the
+			// destruction are still compared through Requests.Cur and the upstream_request_active stats)
 			add(obj, pn+" I5 ended stream was never destroyed ("+s.endCause+")", fmt.Sprintf("stream %d ended (%s) but OnDestroyStream never fired", s.ord, s.endCause))
 		case !s.ended && ds > 0:
 			add(obj, pn+" I5 stream destroyed while still in flight", fmt.Sprintf("stream %d is in flight per the events applied, yet OnDestroyStream fired (resets %v)", s.ord, s.resets))
